@@ -99,20 +99,21 @@ Definition sol_ok (T : tables) (cleans : list name) (g : graph) (sol : solution)
 Definition same_solution (g : graph) (a b : solution) : bool :=
   forallb (fun n => tymap_eqb (sol_in a n) (sol_in b n) && tymap_eqb (sol_out a n) (sol_out b n)) (map fst (g_nodes g)).
 
-(* one case: id, tables, clean names, graph, the implementation's solution restricted to visited nodes *)
-Definition case := (nat * tables * list name * graph * solution)%type.
+(* one case: id, worklist fuel (a multiple of the implementation's own number of node visits), tables, clean
+   names, graph, the implementation's solution *)
+Definition case := (nat * nat * tables * list name * graph * solution)%type.
 
 Definition corr_ok (c : case) : bool :=
-  let '(_, T, _, g, sol) := c in
-  match analyze (tb_transfer T) g 3000 with
+  let '(_, fuel, T, _, g, sol) := c in
+  match analyze (tb_transfer T) g fuel with
   | Some s => same_solution g s sol
   | None => false
   end.
 
 Definition cert_ok (c : case) : bool :=
-  let '(_, T, cl, g, sol) := c in sol_ok T cl g sol.
+  let '(_, _, T, cl, g, sol) := c in sol_ok T cl g sol.
 
-Definition case_id (c : case) : nat := let '(i, _, _, _, _) := c in i.
+Definition case_id (c : case) : nat := let '(i, _, _, _, _, _) := c in i.
 
 Definition failing (cs : list case) : list nat * list nat :=
   (map case_id (filter (fun c => negb (corr_ok c)) cs),
